@@ -476,6 +476,10 @@ mut("c15-max-2-31", "C15", VI,
     """    pub const MAX: Self = VarInt((1 << 31) - 1);""",
     """    pub const MAX: Self = VarInt(1 << 31);""",
     "O1/constants", "2^31 accepted: its encoding collides with 0")
+mut("c15-long-bit-value", "C15", VI,
+    """    const LONG_BIT: u8 = 1 << 7;""",
+    """    const LONG_BIT: u8 = 1 << 6;""",
+    "O4/", "the form bit is 0x40: values 64..127 take four bytes and long encodings are misread")
 mut("c15-range-check-ge", "C15", VI,
     """        if v > Self::MAX.into() {""",
     """        if v >= Self::MAX.into() {""",
@@ -1390,6 +1394,20 @@ mut("x-c09-enum-flag-raised-unconditionally", "C09", A,
     """                if !this.is_writeable() {""",
     "R9.4/poll_read/writeable-guard", "writeable raised without reaching the final stream (flag as a private enum)", base="u2-r8")
 
+mut("c13-token-dropped-before-last-await", "C13", A,
+    """                None => return,
+            };
+        }
+    }""",
+    """                None => {
+                    drop(self);
+                    futures_util::future::ready(()).await;
+                    return;
+                },
+            };
+        }
+    }""",
+    "R13.5/", "the token is dropped before the task's last suspension point: the slot is reused while the connection is still open (seed C13-g)")
 mut("c14-clone-shares-wait-group", "C14", A,
     """        Self { config: self.config.clone(), sema: self.sema.clone(), stop, wg: WaitGroup::new() }""",
     """        Self { config: self.config.clone(), sema: self.sema.clone(), stop, wg: self.wg.clone() }""",
@@ -1399,3 +1417,38 @@ mut("c11-into-skip-sum-overflows", "C11", "src/parser/request.rs",
     """        if (payload_rem | u16::from(padding_rem)) == 0 {""",
     """        if payload_rem + u16::from(padding_rem) == 0 {""",
     "R11.8/into_skip", "65535 + 1 wraps (release) or panics (debug): the body of an abort record is not skipped (seed C11-f)")
+
+# ---- sweep w: the tail-slice spelling of parse_stream (w1-r8), the free-function spelling of the buffer alignment (w6-r8) ----------------
+mut("x-c06-tail-form-record-end-unconsumed", "C06", "src/parser/request.rs",
+    """            &mut []
+        } else {
+            data
+        }""",
+    """            data
+        } else {
+            data
+        }""",
+    "R6.5/parse_stream", "record end: the remainder is buffered but handed back as unconsumed (tail-slice form of parse_stream)", base="w1-r8")
+mut("x-c03-tail-form-consumed-overcount", "C03", "src/parser/request.rs",
+    """                let consumed = available - rest.len();""",
+    """                let consumed = available + 2 - rest.len();""",
+    "R3.11/", "consumed can exceed what was available: payload_rem underflows (tail-slice form)", base="w1-r8")
+mut("x-c06-free-align-rounds-down", "C06", "src/lib.rs",
+    """    match buffer_size.checked_add(7) {
+        Some(r) => r & !7,
+        None => usize::MAX,
+    }""",
+    """    buffer_size & !7""",
+    "R6.3/", "the free-function alignment helper rounds down (seed C01-g on the refactored tree)", base="w6-r8")
+mut("x-c20-named-range-off-by-one", "C20", "src/cgi/response.rs",
+    """    const STATUS_CODE_POS: Range<usize> = 8..11;""",
+    """    const STATUS_CODE_POS: Range<usize> = 7..10;""",
+    "R20.1/write_headers", "the status code overwrites the space after `Status:` (named range constant)", base="w6-r2")
+mut("x-c19-zip-loop-returns-on-equal", "C19", "src/cgi/mod.rs",
+    """            if ord.is_ne() {""",
+    """            if ord.is_eq() {""",
+    "R19.3/varname-cmp", "the explicit comparison loop leaves on the first equal byte pair", base="w6-r7")
+mut("x-c19-zip-loop-mixed-fold", "C19", "src/cgi/mod.rs",
+    """            let ord = l.to_ascii_uppercase().cmp(&r.to_ascii_uppercase());""",
+    """            let ord = l.to_ascii_uppercase().cmp(&r.to_ascii_lowercase());""",
+    "R19.3/varname-cmp", "the two sides are folded differently", base="w6-r7")
